@@ -206,6 +206,8 @@ class Fx(object):
         self.pad_cache = {}
         self.registry = {}       # pad atom text -> inner Form
         self.trace = []
+        self.oplog = []          # (stream, op, member text or None, Form amount, line)
+        self.reader = {}         # stream name -> True for InputMemoryStream
 
     # ---- canonical text
     def txt(self, ctx, n, d=0):
@@ -342,6 +344,16 @@ class Fx(object):
             t = self.txt(ctx, e)
             if t.endswith(".size()") and getattr(self, "_env", None) is not None and ("len:" + t[:-7]) in self._env:
                 return self._env["len:" + t[:-7]]
+            if k == "CXXMemberCallExpr" and e.get("cname") == "size" and len(c) == 1 and getattr(self, "_env", None) is not None:
+                me = c[0]
+                while me["k"] in ("ParenExpr", "ImplicitCastExpr"):
+                    me = me["c"][0]
+                ob = strip(me["c"][0]) if me.get("c") else None
+                if ob is not None and ob["k"] == "DeclRefExpr" and ob.get("var") in ctx.streams:
+                    nm = ctx.streams[ob["var"]]
+                    tot = self._env.get("tot:" + nm)
+                    if tot is not None and not self._env.get("rest:" + nm):
+                        return tot - self._env.get("s:" + nm, Form()) - self._env.get("t:" + nm, Form())
             r = self.call_form(ctx, e)
             if r is not None:
                 return r
@@ -690,6 +702,9 @@ class Fx(object):
             k = x["k"]
             if k == "CXXMemberCallExpr" and x.get("cname") in ("write_serialization", "resize"):
                 return True
+            if k == "CXXMemberCallExpr" and len(x["c"]) >= 3 and len(ctx.f["params"]) >= 2 and \
+                    [strip(a).get("var") for a in x["c"][1:3]] == [p["var"] for p in ctx.f["params"][:2]]:
+                return True
             if k in ("ReturnStmt", "CXXThrowExpr"):
                 return True
             if k in ("BinaryOperator", "CompoundAssignOperator") and x.get("op", "") in ("=", "+=", "-=", "*=", "|=", "&="):
@@ -709,7 +724,7 @@ class Fx(object):
     def is_stream_type(self, t):
         while t and t.get("k") in ("ref", "ptr"):
             t = t.get("to")
-        return bool(t) and t.get("k") == "rec" and t.get("name") == "Tins::Memory::OutputMemoryStream"
+        return bool(t) and t.get("k") == "rec" and t.get("name") in ("Tins::Memory::OutputMemoryStream", "Tins::Memory::InputMemoryStream")
 
     def stream_args(self, ctx, call, env):
         """stream names referenced by the object / arguments of a call"""
@@ -806,8 +821,14 @@ class Fx(object):
                 primary = len(ctx.f["params"]) >= 2 and [p["name"] for p in ctx.f["params"][:2]] == names[:2]
             name = "out" if primary else "aux:" + v.get("name", "?")
             ctx.streams[var] = name
-            env.setdefault("s:" + name, Form())
+            tt = t
+            while tt and tt.get("k") in ("ref", "ptr"):
+                tt = tt.get("to")
+            self.reader[name] = (tt or {}).get("name") == "Tins::Memory::InputMemoryStream"
+            env["s:" + name] = Form() if not primary or "s:out" not in env else env["s:" + name]
             env.setdefault("seg:" + name, 0)
+            if init is not None and len(init.get("c", [])) >= 2:
+                env["tot:" + name] = self.fexpr(ctx, env, init["c"][1])
             return
         if t and t.get("k") in ("int", "bool", "enum") and var in ctx.assigned:
             env["v:" + var] = self.fexpr(ctx, env, v["c"][0]) if v.get("c") else Form()
@@ -897,9 +918,11 @@ class Fx(object):
             if a0["k"] == "DeclRefExpr" and a0.get("var") in ctx.streams:
                 names.append(ctx.streams[a0["var"]])
         if not names:
-            # a base-class serialiser continued on the same buffer
-            if n.get("cname") == "write_serialization" and len(n["c"]) == 3 and len(ctx.f["params"]) >= 2 and \
-                    [strip(a).get("var") for a in n["c"][1:]] == [p["var"] for p in ctx.f["params"][:2]]:
+            # a base-class serialiser / a helper of the same object continued on the same buffer
+            if len(n["c"]) >= 3 and len(ctx.f["params"]) >= 2 and n["k"] in ("CXXMemberCallExpr", "CallExpr") and \
+                    [strip(a).get("var") for a in n["c"][1:3]] == [p["var"] for p in ctx.f["params"][:2]] and \
+                    (n.get("cname") == "write_serialization" or self.db.functions.get(n.get("callee"), {}).get("rec") in
+                     ([ctx.f.get("rec")] + list(self.db.all_bases(ctx.f.get("rec") or "")))):
                 fs = self.db.functions.get(n.get("callee"))
                 if fs is None or not fs.get("body"):
                     raise Opaque("base serialiser %s has no body" % n.get("callee"))
@@ -937,7 +960,7 @@ class Fx(object):
                 senv["s:" + nm] = env["s:" + nm]
                 senv["seg:" + nm] = env.get("seg:" + nm, 0)
                 for kk in env:
-                    if kk.startswith("t:" + nm) or kk.startswith("last:" + nm):
+                    if kk.startswith(("t:" + nm, "last:" + nm, "tot:" + nm, "rest:" + nm)):
                         senv[kk] = env[kk]
             elif pt.get("k") in ("int", "bool", "enum"):
                 senv["v:" + p["var"]] = self.fexpr(ctx, env, a)
@@ -945,7 +968,7 @@ class Fx(object):
                 sub.alias[p["var"]] = self.txt(ctx, a)
         out = self.exec_list(sub, fs["body"].get("c", []), senv)
         for kk, vv in out.items():
-            if kk.startswith(("s:", "seg:", "t:", "last:")):
+            if kk.startswith(("s:", "seg:", "t:", "last:", "rest:")):
                 env[kk] = vv
 
     def stream_op(self, ctx, name, n, env):
@@ -953,7 +976,24 @@ class Fx(object):
         args = n["c"][1:]
         key = "s:" + name
         amt = None
-        if op in ("write", "write_be", "write_le"):
+        if op in ("read", "read_be", "read_le") and len(args) == 0:
+            # T read<T>(): the value is returned
+            rt = facts.ty(ctx.f, n)
+            sz = type_size(self.db, rt)
+            if sz is None:
+                raise Opaque("read of a value of unknown size")
+            amt = const(sz)
+            self.oplog.append((name, "read", None, amt, n.get("l")))
+            self.advance(name, amt, env)
+            return
+        if op == "read" and len(args) == 2:
+            amt = self.fexpr(ctx, env, args[1])
+            self.oplog.append((name, "read", self.txt(ctx, args[0]), amt, n.get("l")))
+            self.advance(name, amt, env)
+            return
+        if op in ("can_read", "operator bool"):
+            return
+        if op in ("write", "write_be", "write_le", "read"):
             if len(args) == 1:
                 fs = self.db.functions.get(n.get("callee"))
                 t = None
@@ -968,6 +1008,7 @@ class Fx(object):
                     raise Opaque("write of a value of unknown size (%s)" % (t or {}).get("s"))
                 amt = const(sz)
                 env["last:" + name] = (ctx, args[0], sz)
+                self.oplog.append((name, "read" if op == "read" else "write", self.txt(ctx, args[0]), amt, n.get("l")))
             elif len(args) == 2:
                 a0, a1 = self.txt(ctx, args[0]), self.txt(ctx, args[1])
                 t1 = facts.ty(ctx.f, args[1]) or {}
@@ -986,9 +1027,11 @@ class Fx(object):
                 if amt is None:
                     amt = atom("dist(%s,%s)" % (a0, a1))
                 env.pop("last:" + name, None)
+                self.oplog.append((name, "write", a0[:-8] if a0.endswith(".begin()") else a0, amt, n.get("l")))
         elif op == "fill":
             amt = self.fexpr(ctx, env, args[0])
             env.pop("last:" + name, None)
+            self.oplog.append((name, "fill", None, amt, n.get("l")))
         elif op == "skip":
             a = self.txt(ctx, args[0])
             if a in ("inner_pdu_.size()", "inner_pdu().size()"):
@@ -998,14 +1041,20 @@ class Fx(object):
                 return
             amt = self.fexpr(ctx, env, args[0])
             env.pop("last:" + name, None)
+            self.oplog.append((name, "skip", None, amt, n.get("l")))
         elif op in ("pointer", "size"):
             return
         else:
             raise Opaque("stream operation %s" % op)
+        self.advance(name, amt, env)
+
+    def advance(self, name, amt, env):
+        if env.get("rest:" + name):
+            return
         if env.get("seg:" + name, 0) >= 1:
             env["t:" + name] = env.get("t:" + name, Form()) + amt
         else:
-            env[key] = env.get(key, Form()) + amt
+            env["s:" + name] = env.get("s:" + name, Form()) + amt
 
     # ---- loops
     def loop(self, ctx, s, env):
@@ -1050,6 +1099,13 @@ class Fx(object):
         if cont is None:
             for x in facts.walk(body):
                 if x["k"] in ("CXXMemberCallExpr", "CallExpr") and (self.stream_args(ctx, x, env) or x.get("cname") == "write_serialization"):
+                    names = self.stream_args(ctx, x, env)
+                    if names and all(self.reader.get(nm2) for nm2 in names):
+                        res = dict(env)
+                        for nm2 in names:
+                            res["rest:" + nm2] = True
+                            self.oplog.append((nm2, "rest", None, Form(), s.get("l")))
+                        return res
                     raise Opaque("loop at line %s writes to the stream but is not an iteration over a container" % s.get("l"))
                 if x["k"] == "ReturnStmt":
                     raise Opaque("loop at line %s returns from inside" % s.get("l"))
